@@ -107,8 +107,12 @@ PeerSig(W, p) == IF p \in DOMAIN W.peers
                         p \in W.banned, p \in pp.everBanned>>
                  ELSE <<"-">>
 HkSig(W) == {PeerSig(W, p) : p \in DOMAIN W.peers}
+\* in the Strict (C28) slices, which are small, the class also carries the peer's protocol states: this is a
+\* transition cover of the slice up to peer identity (housekeeping: all peers' states and the request queues)
+Detail(W, p) == IF Strict /\ p \in DOMAIN W.peers THEN W.peers[p] ELSE <<>>
 CoverClass == <<ev'.ev, ev'.m.proto, ev'.m.kind, OutSig(w'.out), PeerSig(w, ev'.p), PeerSig(w', ev'.p),
-                IF ev'.ev = "hk" THEN HkSig(w) ELSE {}>>
+                IF ev'.ev = "hk" THEN HkSig(w) ELSE {}, Detail(w, ev'.p),
+                IF Strict /\ ev'.ev = "hk" THEN <<{w.peers[p] : p \in DOMAIN w.peers}, w.bfq, w.isect, w.lfq>> ELSE <<>>>>
 Findings == <<bad', pbad', pan'>>
 
 ASSUME TLCSet(1, {}) /\ TLCSet(2, {})
